@@ -114,6 +114,18 @@ def gen(rng, tier):
                   bytes(32) + bytes(32), enc[1:] + (1).to_bytes(32, "big"), b"\x04" + enc[1:] + (1).to_bytes(32, "big")):
             yield Case("ptfrombytes", [c, hx(b)], "neg-offcurve")
             yield Case("pubkey", [c, hx(b)], "neg-offcurve")
+    # ed25519 family: the 64-byte coordinate form x || y (little-endian) with a coordinate that is not reduced modulo p: the point of
+    # (x + p, y) would carry the wrong sign bit, (x, y + p) spills into bit 255 — both are refused (F-ed-unreduced); reduced coordinates of
+    # the same points are accepted
+    q = P["ed"]
+    for c in ("ed25519", "ed25519blake2b", "ed25519kholaw", "ed25519monero"):
+        for k in (1, 2, rng.randrange(3, 2**200)):
+            g = GEN[c].Generator() * k
+            x, y = g.X(), g.Y()
+            yield Case("ptfrombytes", [c, hx(x.to_bytes(32, "little") + y.to_bytes(32, "little"))], "valid-decoded-form")
+            for xx, yy in ((x + q, y), (x, y + q), (x + q, y + q), (2 * q - x, y)):
+                if xx < 2**256 and yy < 2**256:
+                    yield Case("ptfrombytes", [c, hx(xx.to_bytes(32, "little") + yy.to_bytes(32, "little"))], "neg-unreduced-coordinate")
 
 
 # inputs on which the two secp256k1 back-ends are known to differ (F-backend-diff): keyed by class
